@@ -1,7 +1,11 @@
 (* C19 — property theorems only.  Each is closed by [exact] of a lemma from proofs/C19_Proofs.v.
    Real-number semantics of the model text.  The drivers are quantified over an ARBITRARY specific-ground-range
    function [sgr_of] (masses -> m/kg at every point), so everything holds in particular for the BADA-3 one
-   ([bada_sgr E P pts]) for every parameter set, engine type and flight profile. *)
+   ([bada_sgr psec E P pts]) for every parameter set, engine type and flight profile.
+   Reading of "consistent": each step of a returned profile is the trapezoid of the burn rates of the iterate the last
+   update started from (not of the returned masses themselves) — the fixed point is reached only up to the code's 0.01 %
+   stop rule; and the burn rate is fuel flow / ground speed only in the regime 0 < fuel flow <= ground speed (at least
+   1 m/kg), otherwise the code integrates 0 (zero or negative flow, or more than 1 kg per metre). *)
 From Coq Require Import ZArith Reals List Bool Arith.
 From AV Require Import lib.Num model.C19_Model proofs.C19_Proofs.
 Import ListNotations.
@@ -50,6 +54,30 @@ Theorem C19_burn_rate_is_flow_over_ground_speed :
   forall gs ff : R, 0 < ff -> ff <= gs -> @burn_rate RNum (gs / ff) = ff / gs.
 Proof. exact burn_rate_is_flow_over_speed. Qed.
 Print Assumptions C19_burn_rate_is_flow_over_ground_speed.
+
+(* composed for the BADA-3 flows: every step of what the constant-initial-mass driver returns is
+   ds_k * (burn_{k+1} + burn_k) / 2 with burn = burn_rate (sgr_point …) evaluated at an iterate [prev] of length n whose head is
+   the prescribed mass — and burn is fuel flow / ground speed in the regime the code integrates (0 < ff <= gs), else 0.
+   "Consistent" therefore holds with the flows of the PREVIOUS iterate, i.e. up to the 0.01 % stop rule of the iteration
+   (the returned masses and the masses the flows were evaluated at differ by at most that much once the rule has fired). *)
+Theorem C19_constant_initial_steps_are_bada_trapezoids :
+  forall psec E (P : params RNum) (pts : list (point RNum)) (ds : list R) (dpt : point RNum) n (m0 : R) n_iter,
+    length pts = n -> length ds = (n - 1)%nat -> (0 < n)%nat ->
+    exists prev, length prev = n /\ hd 0 prev = m0 /\
+      forall k, (S k < n)%nat ->
+        nth k (@iterate_ci RNum (@bada_sgr RNum psec E P pts) ds n m0 n_iter) 0
+        - nth (S k) (@iterate_ci RNum (@bada_sgr RNum psec E P pts) ds n m0 n_iter) 0
+        = nth k ds 0 * (@burn_rate RNum (@sgr_point RNum psec E P (nth (S k) pts dpt) (nth (S k) prev 0))
+                        + @burn_rate RNum (@sgr_point RNum psec E P (nth k pts dpt) (nth k prev 0))) / 2.
+Proof. exact iterate_ci_steps_bada. Qed.
+Print Assumptions C19_constant_initial_steps_are_bada_trapezoids.
+
+Theorem C19_burn_rate_at_a_point_is_flow_over_ground_speed :
+  forall psec E (P : params RNum) (pt : point RNum) (m : R),
+    0 < @fuel_flow RNum psec E P pt m <= t_gs pt ->
+    @burn_rate RNum (@sgr_point RNum psec E P pt m) = @fuel_flow RNum psec E P pt m / t_gs pt.
+Proof. exact burn_rate_at_point. Qed.
+Print Assumptions C19_burn_rate_at_a_point_is_flow_over_ground_speed.
 
 (* … and what every driver returns is such an update of one of its iterates *)
 Theorem C19_constant_initial_result_is_an_update :
